@@ -1311,6 +1311,7 @@ class Simulation(Structure):
         if modes == 0:
             # Immediately save to file.
             clibrebound.reb_simulation_save_to_file(byref(self), c_char_p(filename.encode("ascii")))
+            self.process_messages()
         elif modes == 1:
             if delete_file:
                 # reset intervals so that automate functions in C set sim->next consistently
